@@ -132,7 +132,10 @@ ghost("WHOn", ["wh", "i", "tz"],
 fields_of("TaskScenario", property=Ref("Task"), project=Ref("Project"), scenarioIdx=Int,
           currentSlotIdx=Opt(Int), doneEffort=Real, doneDuration=Int, doneLength=Int, slotStartOffset=Real,
           _lastBookedResource=Opt(Ref("Resource")), _lastBookedSlot=Opt(Int),
-          _selectedResources=Opt(List(Ref("Resource"))), isRunAway=Bool, scheduled=Bool, hasDurationSpec=Bool)
+          _selectedResources=Opt(List(Ref("Resource"), region="reslist")), isRunAway=Bool, scheduled=Bool,
+          hasDurationSpec=Bool)
+ResList = List(Ref("Resource"), region="reslist")      # lists of candidate resources all live in one heap region
+T.note_regions(ResList)
 attrs(effort=Opt(Real), start=Opt(DT), end=Opt(DT), scheduled=Opt(Bool), forward=Opt(Bool), milestone=Opt(Bool),
       duration=Opt(Real), length=Opt(Real), priority=Opt(Int), pathcriticalness=Opt(Real), seqno=Opt(Int))
 # the resource scenario object of resource r in scenario sc
@@ -227,3 +230,19 @@ klass("Dep", attrget=True, isinstance={"dict": "self.is_dict"}, hasattr={"task":
       methods={"get": ("pyfunc", _dep_get)})
 # the predecessor task of a dependency item, its gap in seconds, its kind
 ghost("DepTask", ["d"], "ite(d.is_dict, d.d_task, d)")
+
+attrs(allocate=Opt(List(Ref("Resource"))), flags=Opt(List(Str)))
+fields_of("TaskScenario", _selectedAlternative=Bool)
+
+
+def anc_axioms_all(cls):
+    """Ancestor-chain axioms for every node of class cls."""
+    return [
+        f"forall(x, 'Ref:{cls}', anc(x, 0) == x.parent)",
+        f"forall(x, 'Ref:{cls}', forall(k, implies(k >= 0, ite(anc(x, k) is None, anc(x, k + 1) is None, anc(x, k + 1) == some(anc(x, k)).parent))))",
+        f"forall(x, 'Ref:{cls}', forall(k, forall(j, implies(0 <= k and k <= j and anc(x, k) is None, anc(x, j) is None))))",
+    ]
+
+
+ghost("ListsDistinct", ["rs"], "forall(s, forall(t, implies(s != t and s in rs.slotTaskUsage and t in rs.slotTaskUsage, "
+                               "rs.slotTaskUsage[s] != rs.slotTaskUsage[t])))")
